@@ -17,7 +17,7 @@ func vMember(zr *zip.Reader, name, content string) {
 // percent-decoded, one chapter per declared readable part, each with its own text.
 //
 //symgo:harness prop=C18 kernel=K1-epub-package-from-xml noreplay=1
-//symgo:desc archive members given as texts (zip decompression cut: member content model); mimetype, META-INF/container.xml pointing to OEBPS/content.opf or to content.opf at the root (enumerated); manifest of three XHTML chapters (one with a percent-encoded space, one with a percent-encoded '#' in its href, one in a sub-directory; hrefs plain or with "./" and "dir/../dir/" dot segments, enumerated), a nav document, an NCX and a stylesheet, listed in an order different from the spine; spine = enumerated permutation of the three chapters, optionally preceded by an idref that is not in the manifest; archive order reversed or not (enumerated); an unreferenced decoy XHTML member: Reader.init (DRM check, container, OPF, chapters; real tokeniser, modelled reflection walk, real HTML parser) yields 3 chapters in spine order, each with its own href and body text; the decoy's text appears in no chapter; EPUB 2 (version 2.0, NCX only) or EPUB 3 (enumerated)
+//symgo:desc archive members given as texts (zip decompression cut: member content model); mimetype, META-INF/container.xml pointing to OEBPS/content.opf or to content.opf at the root (enumerated); manifest of three XHTML chapters (one with a percent-encoded space, one with a percent-encoded '#' in its href, one in a sub-directory; hrefs plain or with "./" and "dir/../dir/" dot segments, enumerated), a nav document, an NCX and a stylesheet, listed in an order different from the spine; spine = enumerated permutation of the three chapters, optionally preceded by an idref that is not in the manifest; archive order reversed or not (enumerated); an unreferenced decoy XHTML member: Reader.init (DRM check, container, OPF, chapters; real tokeniser, modelled reflection walk, real HTML parser) yields 3 chapters in spine order, each with its own href and body text; the decoy's text appears in no chapter; EPUB 2 (version 2.0, NCX only) or EPUB 3 (enumerated); chapter heads with a text title or with self-closing <title/> and <script/> (enumerated); Text() holds every chapter's body text exactly once
 func H_C18_epub_package_from_xml() {
 	dir := "OEBPS/"
 	if vAnyIntIn(0, 1) == 1 {
@@ -58,8 +58,15 @@ func H_C18_epub_package_from_xml() {
 		opf += `<itemref idref="` + ids[k] + `"/>`
 	}
 	opf += `</spine></package>`
+	// the head as XHTML writers produce it: a title with text, or - legal XML, not HTML - an empty title and a script
+	// element written as self-closing tags
+	selfClosing := vAnyIntIn(0, 1) == 1
 	chapter := func(marker string) string {
-		return `<?xml version="1.0" encoding="UTF-8"?><html xmlns="http://www.w3.org/1999/xhtml"><head><title>T ` + marker + `</title></head><body><h1>Heading ` + marker + `</h1><p>Text of ` + marker + `.</p></body></html>`
+		head := `<title>T ` + marker + `</title>`
+		if selfClosing {
+			head = `<title/><script type="text/javascript" src="a.js"/>`
+		}
+		return `<?xml version="1.0" encoding="UTF-8"?><html xmlns="http://www.w3.org/1999/xhtml"><head>` + head + `</head><body><h1>Heading ` + marker + `</h1><p>Text of ` + marker + `.</p></body></html>`
 	}
 	type mem struct{ name, content string }
 	members := []mem{
@@ -96,6 +103,11 @@ func H_C18_epub_package_from_xml() {
 		vAssert("own-text", strings.Contains(string(ch.Content), "Text of "+own+"."))
 		vAssert("no-decoy-text", !strings.Contains(string(ch.Content), "DECOY"))
 		vAssert("title-from-own-part", strings.Contains(ch.Title, own))
+	}
+	txt, terr := r.TextWithOptions(ExtractOptions{})
+	vAssert("text-no-error", terr == nil)
+	for k := 0; k < 3; k++ {
+		vAssert("chapter-text-is-extracted", strings.Count(txt, "Text of part"+string(rune('A'+k))+".") == 1)
 	}
 	vReach("end")
 }
